@@ -49,6 +49,7 @@ def _clone(pe):
     q.f, q.keep_mem, q.inliner = pe.f, pe.keep_mem, pe.inliner
     q.env, q.mem = dict(pe.env), dict(pe.mem)
     q.conds, q.calls, q.writes = list(pe.conds), list(pe.calls), list(pe.writes)
+    q._facts = {k: [v[0], set(v[1])] for k, v in getattr(pe, "_facts", {}).items()}
     q.path = list(pe.path)
     return q
 
